@@ -35,6 +35,10 @@ namespace {
          }
          for (int k = 0; k < nv; ++k)
             exprs.push_back(lex.make_literal(lex.int_type(), vh::u8(std::to_string(k))));
+         // every second parameter has a default argument (one of the values): a substitution never consults it
+         for (int k = 1; k < np; k += 2)
+            const_cast<impl::Parameter*>(dynamic_cast<const impl::Parameter*>(exprs.at(k + 1)))->init
+               = nv > 0 ? exprs.at(np + 1 + k % nv) : lex.make_literal(lex.int_type(), u8"dflt");
       }
       int id_of(const ipr::Expr& e) const
       {
